@@ -39,7 +39,7 @@ var solverCmd = []string{"z3", "-in", "-t:10000"}
 // second solver, asked when the first one gives up: cvc5 with the integer
 // encoding of bit-vector arithmetic, which decides mul/div/rem equivalences
 // that bit-blasting does not finish (one process per query; rare)
-var fallbackFPCmd = []string{"cvc5", "--fp-exp", "--tlimit=60000", "--produce-models"}
+var fallbackFPCmd = []string{"cvc5", "--fp-exp", "--tlimit=120000", "--produce-models"}
 var fallbackCmd = []string{"cvc5", "--solve-bv-as-int=sum", "--tlimit=20000", "--produce-models"}
 var dumpQueries *os.File
 var dumpMu sync.Mutex
